@@ -171,14 +171,16 @@ def oracle(ctx, case, steps, ctor_err):
     import re
     if re.search(r'\|\d+$', base):
         return
-    bad = base + '[#V]}.' + rest
-    try:
-        resolve(bad, **kw)
-        ctx.fail(dict(suites.slim(case), s=bad, variant='bad'), 'fragment-less node with an order-1 edge was resolved without error')
-    except SyntaxError:
-        ctx.feature('rejected-nonvirtual')
-    except Exception as err:    # noqa: BLE001
-        ctx.fail(dict(suites.slim(case), s=bad, variant='bad'), f'fragment-less node with an order-1 edge raised {type(err).__name__}, not SyntaxError')
+    # ... wherever it stands: last (bonded backwards), first (bonded forwards only), first of a '.'-separated part
+    for bad, where in ((base + '[#V]}.' + rest, 'last'), ('{[#V]' + base[1:] + '}.' + rest, 'first'),
+                       (base + '.[#V][#W]}.' + rest[:-1] + ',#W=C}', 'first-of-a-part')):
+        try:
+            resolve(bad, **kw)
+            ctx.fail(dict(suites.slim(case), s=bad, variant='bad'), f'fragment-less node ({where}) with an order-1 edge was resolved without error')
+        except SyntaxError:
+            ctx.feature('rejected-nonvirtual:' + where)
+        except Exception as err:    # noqa: BLE001
+            ctx.fail(dict(suites.slim(case), s=bad, variant='bad'), f'fragment-less node ({where}) with an order-1 edge raised {type(err).__name__}, not SyntaxError')
 
 
 def later_level_name_case(ctx, rng):
